@@ -308,8 +308,36 @@ pub async fn settle_net(w: &World) {
     }
 }
 
-/// A sample the model expects is absent: wait a second and look again, so that a late arrival is
-/// never reported as a violation. Returns true if the sample is still absent.
+pub enum Probe {
+    /// the sample showed up after waiting: harness timing, never a verdict
+    Late,
+    /// still not stored after a second
+    Absent,
+    /// stored right now (so it is a selection question); first sample of the instance as observed
+    Present(Obs),
+}
+
+/// A sample the model expects was not returned: is it stored at all (read the instance with ANY
+/// masks), and if not, does it arrive within a second?
+pub async fn probe_missing(w: &World, env: &Env, handles: &BTreeMap<u32, InstanceHandle>, key: u32, id: (u32, u32)) -> Probe {
+    let probe = ReadOp { take: false, sel: Sel::Inst(key), max: MAX_ALL, ss: SS_ANY, vs: VS_ANY, is: IS_ANY };
+    if !handles.contains_key(&key) {
+        return Probe::Absent;
+    }
+    if let Some(Ok(v)) = do_read(env, handles, &probe).await {
+        if v.iter().any(|o| o.id == Some(id)) {
+            return Probe::Present(v[0].clone());
+        }
+    }
+    w.sim.sleep(SEC).await;
+    settle_net(w).await;
+    match do_read(env, handles, &probe).await {
+        Some(Ok(v)) if v.iter().any(|o| o.id == Some(id)) => Probe::Late,
+        _ => Probe::Absent,
+    }
+}
+
+/// C24 variant over all instances. Returns true if the sample is still absent after a second.
 pub async fn confirm_absent(w: &World, env: &Env, handles: &BTreeMap<u32, InstanceHandle>, id: (u32, u32)) -> bool {
     w.sim.sleep(SEC).await;
     settle_net(w).await;
@@ -317,6 +345,13 @@ pub async fn confirm_absent(w: &World, env: &Env, handles: &BTreeMap<u32, Instan
         Some(Ok(v)) => !v.iter().any(|o| o.id == Some(id)),
         _ => true,
     }
+}
+
+fn parse_instance_key(what: &str) -> Option<u32> {
+    what.split("instance k")
+        .nth(1)
+        .and_then(|s| s.split(|c: char| !c.is_ascii_digit()).next())
+        .and_then(|s| s.parse::<u32>().ok())
 }
 
 fn parse_missing_id(what: &str) -> Option<(u32, u32)> {
@@ -776,13 +811,20 @@ async fn judge_collection(
         if let Some(raw) = f.sig.strip_prefix('~') {
             // raw selection mismatch: attribute it per property
             stop = true;
+            let mut probed: Option<Probe> = None;
             if raw.starts_with("missing") {
-                if let Some(id) = parse_missing_id(&f.what) {
-                    if !confirm_absent(w, env, &model.handles, id).await {
+                if prop == "C25" {
+                    // the returned collection was presented, whatever the model thinks of it
+                    note_presented_c25(model, out, obs, oi, arrivals);
+                }
+                if let (Some(id), Some(key)) = (parse_missing_id(&f.what), parse_instance_key(&f.what)) {
+                    let p = probe_missing(w, env, &model.handles, key, id).await;
+                    if matches!(p, Probe::Late) {
                         out.abandoned = Some(format!("sample w{}#{} arrived late (harness timing, no verdict)", id.0, id.1));
                         out.stat("late_arrivals(no verdict)", 1);
                         continue;
                     }
+                    probed = Some(p);
                 }
             }
             if raw.starts_with("unsure") {
@@ -813,10 +855,12 @@ async fn judge_collection(
                     }
                 }
                 "C25" => {
-                    // present everything that is stored, then judge the presented pairs
+                    // what this operation returned was presented; then present everything that is
+                    // stored and judge the presented pairs
+                    let before = out.findings.len();
+                    note_presented_c25(model, out, obs, oi, arrivals);
                     if let Some(all) = do_read(env, &model.handles, &ALL_READ).await {
-                        let before = out.findings.len();
-                        if let Ok(v) = &all {
+                        if let (Ok(v), true) = (&all, out.findings.len() == before) {
                             note_presented_c25(model, out, v, oi, arrivals);
                         }
                         if out.findings.len() == before {
@@ -837,7 +881,7 @@ async fn judge_collection(
                 }
                 _ => {
                     // C20 / C23: find out whether the instance's states explain the selection
-                    let sig = diagnose_selection(env, model, r, raw, &f.what).await;
+                    let sig = diagnose_selection(env, model, probed, raw, &f.what).await;
                     if prop == "C23" && (sig.starts_with("view_state") || sig.starts_with("instance_state")) {
                         out.abandoned = Some(format!("instance state differs from the model (life cycle, not the walk): {sig}"));
                         out.stat("abandoned_state_differs_from_model", 1);
@@ -870,29 +914,31 @@ async fn judge_collection(
 
 /// C20/C23: a matching sample was not returned or a non-matching one was: read the instance with
 /// ANY masks and see whether its view / instance state differs from the model.
-async fn diagnose_selection(env: &Env, model: &Model, r: &ReadOp, raw: &str, what: &str) -> String {
-    // instance key is in the message: "instance k<key>"
-    let key = what
-        .split("instance k")
-        .nth(1)
-        .and_then(|s| s.split(|c: char| !c.is_ascii_digit()).next())
-        .and_then(|s| s.parse::<u32>().ok());
-    if let Some(key) = key {
-        if let (Some(inst), true) = (model.insts.get(&key), model.handles.contains_key(&key)) {
+async fn diagnose_selection(env: &Env, model: &Model, probed: Option<Probe>, raw: &str, what: &str) -> String {
+    let Some(key) = parse_instance_key(what) else { return format!("selection|{raw}") };
+    let Some(inst) = model.insts.get(&key) else { return format!("selection|{raw}") };
+    let first: Option<Obs> = match probed {
+        Some(Probe::Present(o)) => Some(o),
+        Some(Probe::Absent) => return format!("selection|{raw}|sample_not_stored"),
+        _ => {
             let probe = ReadOp { take: false, sel: Sel::Inst(key), max: MAX_ALL, ss: SS_ANY, vs: VS_ANY, is: IS_ANY };
-            if let Some(Ok(v)) = do_read(env, &model.handles, &probe).await {
-                if let Some(o) = v.first() {
-                    if o.view_new != inst.view_new {
-                        return inst.view_sig(o.view_new);
-                    }
-                    if o.ist != inst.ist {
-                        return inst.istate_sig(o.ist);
-                    }
-                }
+            if !model.handles.contains_key(&key) {
+                return format!("selection|{raw}");
+            }
+            match do_read(env, &model.handles, &probe).await {
+                Some(Ok(v)) => v.first().cloned(),
+                _ => None,
             }
         }
+    };
+    if let Some(o) = first {
+        if o.view_new != inst.view_new {
+            return inst.view_sig(o.view_new);
+        }
+        if o.ist != inst.ist {
+            return inst.istate_sig(o.ist);
+        }
     }
-    let _ = r;
     format!("selection|{raw}")
 }
 
@@ -1082,7 +1128,8 @@ async fn walk(
                     if !blocked {
                         // does the implementation's idea of the instance's states explain it?
                         let probe = ReadOp { take: false, sel: Sel::Inst(remaining[0]), max: MAX_ALL, ss: SS_ANY, vs: VS_ANY, is: IS_ANY };
-                        let sig = diagnose_selection(env, model, &probe, "missing", &format!("instance k{}", remaining[0])).await;
+                        let _ = probe;
+                        let sig = diagnose_selection(env, model, None, "missing", &format!("instance k{}", remaining[0])).await;
                         if sig.starts_with("view_state") || sig.starts_with("instance_state") {
                             out.abandoned = Some(format!("instance state differs from the model (life cycle, not the walk): {sig}"));
                             out.stat("abandoned_state_differs_from_model", 1);
